@@ -267,7 +267,7 @@ PROPS = {
         n_quick=40, n_thorough=600,
         required_theorems=["C12_all", "C12_shape", "C12_acked", "C12_final_complete", "C12_open", "members_run", "file_run", "files_run", "reachable_closed",
                            "C12_log_is_run", "C12_ack_is_response", "step_log", "write_log"],
-        model_assumptions=["the model's effect log is the writer's program order for one worker (create, member bytes, optional fsync, acknowledgement, close, rename); C12_log_is_run proves that it is exactly what the writer model of C04/C13 issues step by step along any run; that the implementation issues these effects in this order is what the strace comparison checks on every generated history",
+        model_assumptions=["the model's effect log is the writer's program order for one worker (create, member bytes, optional fsync, acknowledgement, close, rename); C12_log_is_run proves that it is exactly what the writer model of C04/C13 issues step by step along any run; that the implementation issues these effects in this order is what the strace comparison checks on every generated history; histories include records the marshaler fails on (op F: refused before the first byte, failing inside the header or block): their bytes are written and taken back by ftruncate, which the trace comparison folds away - every crash state in between is still judged",
                            "byte-granular kill points (one effect per byte) are a superset of the real ones (write syscalls of arbitrary chunking, including the compressor's)",
                            "process kill, not power loss: the kernel keeps completed writes and renames atomically; page cache loss is outside the property",
                            "one record per Write call in these workloads (the acknowledgement of a batch comes after all of its records; batches are C04/C09); Rotate concurrent with a Write is C09"],
@@ -283,6 +283,7 @@ PROPS = {
         n_quick=400, n_thorough=6000,
         required_theorems=["C10_no_stuck", "C10_measure", "C10_bounded", "C10_all_return", "C10_maximal_finished", "C10_after_close", "C10_write_after_close", "C10_skeleton", "step_inv", "reach_inv"],
         model_assumptions=["Go's unbuffered channels, close(), select and sync.Mutex / WaitGroup are the model's rendezvous, flags, choice, exclusion and 'all workers ended'",
+                           "environment faults in the steered schedules: a marshaler that fails, and an output directory that disappears while every worker holds an open file (every final close/rename fails): only the clause that every call returns is judged then",
                            "the per-file critical section (lock, fit test, append, unlock) is one step: it takes one lock, never nests (after fix 9de3e02) and always releases; a marshaler or name generator that blocks forever is outside the statement",
                            "exit(v,false): close(closed); close(jobs) is one step of the model (no goroutine can be blocked by the state between the two)",
                            "the tie is the regenerated synchronisation skeleton (C10_skeleton): every channel operation, select, close, lock, wait-group operation, goroutine start and protocol call of warcfile.go in order; real schedules are sampled and steered by the harness, not enumerated"],
@@ -313,7 +314,7 @@ PROPS = {
         required_theorems=["C11_table", "C11_closed", "C11_fields_locked", "C11_reads_locked"],
         model_assumptions=["the Go memory model: accesses ordered by a mutex, by channel operations of the protocol (C10) or by package initialisation do not race",
                            "the table is extracted syntactically (go/ast): assignments through the receiver, calls by method name, package variables by name; accesses reached only through interfaces, closures or third-party code are not in the table and are covered by the race-detector workloads only",
-                           "the detector only reports races on the schedules that actually ran: the workloads repeat each supported shape with 2-8 goroutines"],
+                           "the detector only reports races on the schedules that actually ran: the workloads repeat each supported shape with 2-8 goroutines; supported shapes include the pipeline in which ONE goroutine owns a file reader and hands every record it gets to a worker goroutine that owns it from then on (workload handoff, with and without spilled blocks; a worker that does not get its complete block is a violation too)"],
         design_ref="DESIGN.md section 5, C11",
         level_text="Lock-discipline check over the shared-access table regenerated from /repo on every run (package-variable writes, field writes of the per-file writer with lock holders and call graph, unsafe external calls, generator and writer-struct writes, pool puts): theorem that the table satisfies the discipline, "
                    "a generic soundness theorem for the lock closure, and its corollary that every field write is reached only through a method that takes writeLock. Validation and search: workloads of exactly the supported shape under the Go race detector; any report is a violation",
